@@ -9,10 +9,17 @@ C17 — model of incremental mdat hashing (BMFF placeholder workflow)
                                   validate_merkle_maps_mdat_boxes           (`validateMaps`)
                                   (uses C16 `checkMerkleTree` / `genTree`)
 
-The model follows the code *after* the repair /verif/fixes/C17-mdat-header-skip.patch
-(per-mdat "header bytes still to skip" counter `mdat_header_skip`; a chunk that contributes no
-bytes is ignored) and /verif/fixes/C17-bmff-hash-mdat-maps.patch (`create_mms_from_mdat_leaves`
-no longer shrinks the stored block size to 1, which the validator rejects).
+The model follows the code *after* the repairs
+* /verif/fixes/C17-mdat-header-skip.patch (per-mdat "header bytes still to skip" counter
+  `mdat_header_skip`; a chunk that contributes no bytes is ignored),
+* /verif/fixes/C17-bmff-hash-mdat-maps.patch (`create_mms_from_mdat_leaves` no longer shrinks the
+  stored block size to 1, which the validator rejects),
+* /verif/fixes/C17-signing-histories.patch: the remainder flush of `update_hash_from_stream`
+  drains `fixed_size_remainder` (`flush`; before: `flushPre`, a second call appended the
+  remainder leaf again); `create_mms_from_mdat_leaves` refuses an mdat whose leaf vector exceeds
+  the validator's `MAX_MERKLE_LEAVES_SIZE` budget (`mkMap`; before: `mkMapPre`, the signer stored
+  what `check_merkle_leaf_memory` rejects); `add_merkle_leaf` refuses a buffered partial leaf
+  longer than a (lowered) leaf size instead of underflowing (`fixedLoop`, `checked_sub`).
 
 The code is parametric in the payload bytes: it only moves, counts and hashes them.  The model is
 therefore generic in the element type `β`; the driver instantiates `β := Nat` and feeds each mdat
@@ -35,12 +42,18 @@ Modelling notes:
   sub-list.
 
 Protocol (`lean/Drv/C17.lean`):
-  acc   fixed=<bytes|-> calls=<id:<L|S>:size,…|->
+  acc   fixed=<bytes|-> calls=<id:<L|S>:size,…|->   (a call `set:<bytes>` changes the leaf size)
         -> per mdat (ascending id) `id/leaves/rem/skip` joined by `;`, leaves `off+len,…`, or `err`
-  final fixed= calls=    (calls, then flush, then create_mms, then verification of the boxes
-                          `header ‖ payload` of the mdats 0..max id)
+  final fixed= calls= [flushes=<n>]
+                         (calls, then n times {flush, create_mms}, then verification of the boxes
+                          `header ‖ payload` of the mdats 0..max id against the last maps)
         -> `<maps> <verdict>`; maps per mdat `id/count/hashes/fb/var` joined by `;`, or `none`;
            verdict ok|bad, or nomerkle when no mdat has a leaf (no MerkleMaps are stored)
+  caps  fixed=<bytes|-> n=<leaves> hsz=<digest bytes>     (create_mms_from_mdat_leaves on n leaves)
+        -> `ok <count>` | toomany | err
+  capv  fb=<bytes|-> varn=<k> vars=<size> len=<region length> hsz= count=
+                         (range construction of the validator for one mdat, lengths only)
+        -> toomany | rej | go
 -/
 namespace C2pa.C17
 
@@ -70,6 +83,7 @@ inductive Err
   | readExact
   | unexpected
   | badParam
+  | tooManyLeaves
   deriving DecidableEq, Repr
 
 section generic
@@ -81,15 +95,18 @@ def fixedLoop (F : Nat) (st : MdatState β) (rest : List β) (dataLen : Nat) :
     Except Err (MdatState β) :=
   match _hrem : st.rem with
   | some buf =>
-    -- finish the buffered partial leaf first
-    let toCopy := min (F - buf.length) dataLen
-    if toCopy > rest.length then .error .readExact
+    -- finish the buffered partial leaf first; `fixed_size.checked_sub(buffer.len())` fails when
+    -- the leaf size was lowered below the number of buffered bytes
+    if F < buf.length then .error .badParam
     else
-      let buf' := buf ++ rest.take toCopy
-      if buf'.length = F then
-        fixedLoop F { st with leaves := st.leaves ++ [⟨F, hashByAlg buf'⟩], rem := none }
-          (rest.drop toCopy) dataLen
-      else .ok { st with rem := some buf' }
+      let toCopy := min (F - buf.length) dataLen
+      if toCopy > rest.length then .error .readExact
+      else
+        let buf' := buf ++ rest.take toCopy
+        if buf'.length = F then
+          fixedLoop F { st with leaves := st.leaves ++ [⟨F, hashByAlg buf'⟩], rem := none }
+            (rest.drop toCopy) dataLen
+        else .ok { st with rem := some buf' }
   | none =>
     let toCopy := min F rest.length
     if toCopy = 0 then .ok st
@@ -132,8 +149,16 @@ def runMdat (fixed : Option Nat) (large : Bool) : MdatState β → List (List β
     | .ok st' => runMdat fixed large st' cs
     | .error e => .error e
 
-/-- remainder flush of `update_hash_from_stream` (the remainder entry itself stays) -/
+/-- remainder flush of `update_hash_from_stream`: the buffered partial leaf becomes the last
+leaf and the remainder entry is drained (`std::mem::take`) -/
 def flush (st : MdatState β) : MdatState β :=
+  match st.rem with
+  | some b => { st with leaves := st.leaves ++ [⟨b.length, hashByAlg b⟩], rem := none }
+  | none => st
+
+/-- the flush **before** the repair: the remainder entry stayed, so a second
+`update_hash_from_stream` appended the same leaf again (Props `pre_fix_flush_twice`) -/
+def flushPre (st : MdatState β) : MdatState β :=
   match st.rem with
   | some b => { st with leaves := st.leaves ++ [⟨b.length, hashByAlg b⟩] }
   | none => st
@@ -162,16 +187,48 @@ def Acc.add (a : Acc β) (id : Nat) (large : Bool) (data : List β) : Except Err
   | .ok s => .ok { a with mdats := insertSt id s a.mdats }
   | .error e => .error e
 
+/-- `MerkleAccumulator::set_fixed_size` / `Builder::set_bmff_hash_fixed_leaf_size` (the public
+setters take KiB: `bytes = kb * 1024`; the harness also sets other byte counts through the hook).
+Documented to be called before the first `hash_bmff_mdat_bytes`; nothing enforces it. -/
+def Acc.setFixed (a : Acc β) (bytes : Nat) : Acc β := { a with fixed := some bytes }
+
+/-- one step of a caller's history -/
+inductive Op (β : Type)
+  | add (id : Nat) (large : Bool) (data : List β)
+  | setFixed (bytes : Nat)
+
+def Acc.step (a : Acc β) : Op β → Except Err (Acc β)
+  | .add id large data => a.add id large data
+  | .setFixed bytes => .ok (a.setFixed bytes)
+
+def Acc.runOps (a : Acc β) : List (Op β) → Except Err (Acc β)
+  | [] => .ok a
+  | op :: rest =>
+    match a.step op with
+    | .ok a' => Acc.runOps a' rest
+    | .error e => .error e
+
+/-- `MAX_MERKLE_LEAVES_SIZE` = 32 MiB -/
+def maxMerkleLeavesSize : Nat := 33554432
+
+/-- the budget test of `check_merkle_leaf_memory` (and, since the repair, of
+`create_mms_from_mdat_leaves`): `!(num_leaves.saturating_mul(leaf_size) > MAX)`; `hsz` =
+`hash_alg_size_in_bytes(alg)` (32 / 48 / 64).  The saturating u64 product exceeds MAX exactly
+when the exact product does. -/
+def capOk (hsz n : Nat) : Bool := decide (n * hsz ≤ maxMerkleLeavesSize)
+
 structure MMap (β : Type) where
   id : Nat
   count : Nat
   hashes : List (LeafHash β)
   fixedBlock : Option Nat
   varSizes : Option (List Nat)
+  /-- digest length of `alg` (the maps of this workflow always carry the accumulator's `alg`) -/
+  hsz : Nat := 32
   deriving DecidableEq, Repr
 
-/-- one iteration of `create_mms_from_mdat_leaves` -/
-def mkMap (fixed : Option Nat) (id : Nat) (leaves : List (Leaf β)) : Except Err (MMap β) :=
+/-- one iteration of `create_mms_from_mdat_leaves` **before** the budget check was added -/
+def mkMapPre (fixed : Option Nat) (hsz : Nat) (id : Nat) (leaves : List (Leaf β)) : Except Err (MMap β) :=
   match fixed with
   | some F =>
     if F = 0 then .error .badParam
@@ -180,23 +237,37 @@ def mkMap (fixed : Option Nat) (id : Nat) (leaves : List (Leaf β)) : Except Err
       -- shrink to the data length, but never to 1 (the validator rejects block sizes ≤ 1)
       let block := if total > 1 then min total F else F
       .ok { id := id, count := leaves.length, hashes := leaves.map (·.hash),
-            fixedBlock := some block, varSizes := none }
+            fixedBlock := some block, varSizes := none, hsz := hsz }
   | none =>
     .ok { id := id, count := leaves.length, hashes := leaves.map (·.hash),
-          fixedBlock := none, varSizes := some (leaves.map (·.len)) }
+          fixedBlock := none, varSizes := some (leaves.map (·.len)), hsz := hsz }
+
+/-- one iteration of `create_mms_from_mdat_leaves`: the leaf vector must fit the budget the
+validator enforces, then as before -/
+def mkMap (fixed : Option Nat) (hsz : Nat) (id : Nat) (leaves : List (Leaf β)) : Except Err (MMap β) :=
+  if !capOk hsz leaves.length then .error .tooManyLeaves
+  else mkMapPre fixed hsz id leaves
 
 /-- flush + `if !merkle_leaves.is_empty() { create_mms_from_mdat_leaves }`; entries exist
 only for mdats with at least one leaf. -/
-def createMms (fixed : Option Nat) : List (Nat × MdatState β) → Except Err (List (MMap β))
+def createMms (fixed : Option Nat) (hsz : Nat) : List (Nat × MdatState β) → Except Err (List (MMap β))
   | [] => .ok []
   | (id, s) :: r =>
     let fl := flush s
-    if fl.leaves.isEmpty then createMms fixed r
+    if fl.leaves.isEmpty then createMms fixed hsz r
     else
-      match mkMap fixed id fl.leaves, createMms fixed r with
+      match mkMap fixed hsz id fl.leaves, createMms fixed hsz r with
       | .ok m, .ok ms => .ok (m :: ms)
       | .error e, _ => .error e
       | _, .error e => .error e
+
+/-- Merkle part of `Builder::update_hash_from_stream`: the remainders are flushed into the leaf
+lists (and drained), then the maps are built from all leaf lists.  (When building the maps fails
+the real accumulator keeps the flushed state; the model returns only the error.) -/
+def Acc.updateHash (a : Acc β) (hsz : Nat) : Except Err (Acc β × List (MMap β)) :=
+  match createMms a.fixed hsz a.mdats with
+  | .ok mms => .ok ({ a with mdats := a.mdats.map fun p => (p.1, flush p.2) }, mms)
+  | .error e => .error e
 
 /-! ### verifier: `validate_merkle_maps_mdat_boxes` -/
 
@@ -223,15 +294,39 @@ def varRanges : List Nat → List β → List (List β)
 /-- `hash_stream_by_alg(alg, reader, Some(vec![range]), false)` -/
 def hashRange (d : List β) : LeafHash β := .sha d
 
-/-- ranges of one mdat box (`MDAT_EXCLUSION_SIZE = 16`); `none` = validation error -/
-def mdatRanges (mm : MMap β) (box : List β) : Option (List (List β)) :=
-  let region := box.drop 16
+inductive VErr
+  | blockSize
+  | sizeMismatch
+  | tooManyLeaves
+  deriving DecidableEq, Repr
+
+/-- `u64::div_ceil` -/
+def divCeil (a b : Nat) : Nat := (a + b - 1) / b
+
+/-- the checks in front of the range loops, on lengths only: the number of ranges of an mdat
+whose region (box minus `MDAT_EXCLUSION_SIZE = 16` bytes) has `regionLen` bytes, or the error -/
+def rangeCount (mm : MMap β) (regionLen : Nat) : Except VErr Nat :=
   match mm.fixedBlock, mm.varSizes with
   | some fb, _ =>
-    if fb ≤ 1 then none else some (fixedRanges fb region)
+    if fb ≤ 1 then .error .blockSize
+    else if !capOk mm.hsz (divCeil regionLen fb) then .error .tooManyLeaves
+    else .ok (divCeil regionLen fb)
   | none, some sizes =>
-    if region.length ≠ sizes.sum then none else some (varRanges sizes region)
-  | none, none => some [region]
+    if regionLen ≠ sizes.sum then .error .sizeMismatch
+    else if !capOk mm.hsz sizes.length then .error .tooManyLeaves
+    else .ok sizes.length
+  | none, none => .ok 1
+
+/-- ranges of one mdat box, or the validation error -/
+def mdatRanges (mm : MMap β) (box : List β) : Except VErr (List (List β)) :=
+  let region := box.drop 16
+  match rangeCount mm region.length with
+  | .error e => .error e
+  | .ok _ =>
+    match mm.fixedBlock, mm.varSizes with
+    | some fb, _ => .ok (fixedRanges fb region)
+    | none, some sizes => .ok (varRanges sizes region)
+    | none, none => .ok [region]
 
 /-- check of one MerkleMap against its ranges (no `BmffMerkleMap` boxes in the asset) -/
 def checkMap [DecidableEq β] (mm : MMap β) (ranges : List (List β)) : Bool :=
@@ -256,8 +351,8 @@ def validateMaps [DecidableEq β] (mms : List (MMap β)) (boxes : List (List β)
   else
     (List.zip boxes mms).all fun (box, mm) =>
       match mdatRanges mm box with
-      | some ranges => checkMap mm ranges
-      | none => false
+      | .ok ranges => checkMap mm ranges
+      | .error _ => false
 
 end generic
 
@@ -293,12 +388,15 @@ structure Call where
   id : Nat
   large : Bool
   size : Nat
+  /-- `set:<bytes>`: not a chunk but a change of the leaf size -/
+  set : Option Nat := none
 
 def parseCalls (s : String) : List Call :=
   if s == "-" then []
   else (s.splitOn ",").filterMap fun c =>
     match c.splitOn ":" with
     | [i, l, n] => some { id := i.toNat!, large := l == "L", size := n.toNat! }
+    | ["set", b] => some { id := 0, large := false, size := 0, set := some b.toNat! }
     | _ => none
 
 def consumed (id : Nat) : List (Nat × Nat) → Nat
@@ -313,10 +411,21 @@ def setConsumed (id n : Nat) : List (Nat × Nat) → List (Nat × Nat)
 def runCalls : Acc Nat → List (Nat × Nat) → List Call → Except Err (Acc Nat × List (Nat × Nat))
   | a, pos, [] => .ok (a, pos)
   | a, pos, c :: cs =>
-    let off := consumed c.id pos
-    let data := (List.range c.size).map (· + off)
-    match a.add c.id c.large data with
-    | .ok a' => runCalls a' (setConsumed c.id (off + c.size) pos) cs
+    match c.set with
+    | some bytes => runCalls (a.setFixed bytes) pos cs
+    | none =>
+      let off := consumed c.id pos
+      let data := (List.range c.size).map (· + off)
+      match a.step (.add c.id c.large data) with
+      | .ok a' => runCalls a' (setConsumed c.id (off + c.size) pos) cs
+      | .error e => .error e
+
+/-- `update_hash_from_stream` n times; the maps of the last call -/
+def updateN (hsz : Nat) : Nat → Acc Nat → List (MMap Nat) → Except Err (List (MMap Nat))
+  | 0, _, last => .ok last
+  | n + 1, a, _ =>
+    match a.updateHash hsz with
+    | .ok (a', mms) => updateN hsz n a' mms
     | .error e => .error e
 
 def parseFixed (s : String) : Option Nat := if s == "-" then none else some s.toNat!
@@ -329,7 +438,7 @@ def mapStr (m : MMap Nat) : String :=
 /-- is the mdat large? decided by the first call for it (the harness is consistent per mdat) -/
 def isLarge (id : Nat) : List Call → Bool
   | [] => false
-  | c :: cs => if c.id = id then c.large else isLarge id cs
+  | c :: cs => if c.set.isNone && c.id = id then c.large else isLarge id cs
 
 /-- the mdat box as the verifier sees it: header (8 or 16 bytes, marked by positions ≥ 10^9)
 followed by the payload positions -/
@@ -350,16 +459,37 @@ def handle (toks : List String) : String :=
   | "final" :: rest =>
     let calls := parseCalls (field rest "calls")
     let fixed := parseFixed (field rest "fixed")
+    let flushes := if field rest "flushes" == "" then 1 else (field rest "flushes").toNat!
     match runCalls { fixed := fixed } [] calls with
     | .ok (a, pos) =>
-      match createMms fixed a.mdats with
+      match updateN 32 flushes a [] with
       | .ok mms =>
-        let nb := (calls.map (·.id)).foldl max 0 + (if calls.isEmpty then 0 else 1)
+        let chunks := calls.filter (·.set.isNone)
+        let nb := (chunks.map (·.id)).foldl max 0 + (if chunks.isEmpty then 0 else 1)
         let boxes := (List.range nb).map fun id => boxOf id calls pos
         let verdict := if mms.isEmpty then "nomerkle" else if validateMaps mms boxes then "ok" else "bad"
         (if mms.isEmpty then "none" else ";".intercalate (mms.map mapStr)) ++ " " ++ verdict
       | .error _ => "err"
     | .error _ => "err"
+  | "caps" :: rest =>
+    let n := (field rest "n").toNat!
+    match mkMap (parseFixed (field rest "fixed")) (field rest "hsz").toNat! 0
+        (List.replicate n (⟨1, .nodata⟩ : Leaf Nat)) with
+    | .ok m => "ok " ++ toString m.count
+    | .error .tooManyLeaves => "toomany"
+    | .error _ => "err"
+  | "capv" :: rest =>
+    let fb := parseFixed (field rest "fb")
+    let mm : MMap Nat :=
+      { id := 0, count := (field rest "count").toNat!, hashes := [],
+        fixedBlock := fb,
+        varSizes := if fb.isSome || field rest "varn" == "-" then none
+          else some (List.replicate (field rest "varn").toNat! (field rest "vars").toNat!),
+        hsz := (field rest "hsz").toNat! }
+    match rangeCount mm (field rest "len").toNat! with
+    | .error .tooManyLeaves => "toomany"
+    | .error _ => "rej"
+    | .ok n => if n ≠ mm.count then "rej" else "go"
   | _ => "bad-op"
 where
   listStr' (l : List String) : String := if l.isEmpty then "-" else ";".intercalate l
